@@ -182,6 +182,10 @@ def _attr_diff(a, b):
 def bits_of(values, level):
     """loaded image values -> the truth representation of synth (bit patterns)"""
     v = np.ascontiguousarray(values)
+    if v.dtype.byteorder not in ("=", "|"):
+        # a non-native byte order of the in-memory array is a representation detail: the values
+        # (and their bit patterns once brought to native order) are what is compared
+        v = v.astype(v.dtype.newbyteorder("="))
     if level == "1.1":
         if v.dtype != np.dtype("complex64"):
             return None
